@@ -148,3 +148,9 @@ Proofs/C05/Unpack.vos Proofs/C05/Unpack.vok Proofs/C05/Unpack.required_vos: Proo
 Properties/C05.vo Properties/C05.glob Properties/C05.v.beautified Properties/C05.required_vo: Properties/C05.v Engine/Regex.vo Gen/Patterns.vo PyRt/Str.vo Gen/Tables.vo Model/Trs.vo Model/Unpack.vo Proofs/C05/Unpack.vo
 Properties/C05.vio: Properties/C05.v Engine/Regex.vio Gen/Patterns.vio PyRt/Str.vio Gen/Tables.vio Model/Trs.vio Model/Unpack.vio Proofs/C05/Unpack.vio
 Properties/C05.vos Properties/C05.vok Properties/C05.required_vos: Properties/C05.v Engine/Regex.vos Gen/Patterns.vos PyRt/Str.vos Gen/Tables.vos Model/Trs.vos Model/Unpack.vos Proofs/C05/Unpack.vos
+Proofs/C06/Tract.vo Proofs/C06/Tract.glob Proofs/C06/Tract.v.beautified Proofs/C06/Tract.required_vo: Proofs/C06/Tract.v Engine/Regex.vo Gen/Patterns.vo PyRt/Str.vo Gen/Tables.vo Model/Trs.vo Model/Unpack.vo Model/TractPre.vo Model/Aliquot.vo Model/TractParse.vo Proofs/C18/Lists.vo
+Proofs/C06/Tract.vio: Proofs/C06/Tract.v Engine/Regex.vio Gen/Patterns.vio PyRt/Str.vio Gen/Tables.vio Model/Trs.vio Model/Unpack.vio Model/TractPre.vio Model/Aliquot.vio Model/TractParse.vio Proofs/C18/Lists.vio
+Proofs/C06/Tract.vos Proofs/C06/Tract.vok Proofs/C06/Tract.required_vos: Proofs/C06/Tract.v Engine/Regex.vos Gen/Patterns.vos PyRt/Str.vos Gen/Tables.vos Model/Trs.vos Model/Unpack.vos Model/TractPre.vos Model/Aliquot.vos Model/TractParse.vos Proofs/C18/Lists.vos
+Properties/C06.vo Properties/C06.glob Properties/C06.v.beautified Properties/C06.required_vo: Properties/C06.v Engine/Regex.vo Gen/Patterns.vo PyRt/Str.vo Gen/Tables.vo Model/Trs.vo Model/Unpack.vo Model/TractPre.vo Model/Aliquot.vo Model/TractParse.vo Proofs/C06/Tract.vo
+Properties/C06.vio: Properties/C06.v Engine/Regex.vio Gen/Patterns.vio PyRt/Str.vio Gen/Tables.vio Model/Trs.vio Model/Unpack.vio Model/TractPre.vio Model/Aliquot.vio Model/TractParse.vio Proofs/C06/Tract.vio
+Properties/C06.vos Properties/C06.vok Properties/C06.required_vos: Properties/C06.v Engine/Regex.vos Gen/Patterns.vos PyRt/Str.vos Gen/Tables.vos Model/Trs.vos Model/Unpack.vos Model/TractPre.vos Model/Aliquot.vos Model/TractParse.vos Proofs/C06/Tract.vos
